@@ -99,9 +99,16 @@ def merge_cases(interp, base, cases, evar, fam, seg_guard, loop_id, nframe, pre_
     var_cases: dict = {}
     n_next = 0
     target_names = set()
+    from .absint import iter_events
+
     for case in cases:
         if case.sig[0] == "next":
             case.delta = compute_delta(interp, base, case.state, nframe, pre_oid, node)
+            # an insertion into a list that exists outside the loop is not an append: order unknown afterwards
+            for ev, Q in iter_events(case.events):
+                if ev.kind in ("list.insert", "list.pop", "list.remove", "list.clear", "list.sort") and isinstance(ev.data.get("obj"), Ref) and ev.obj.oid <= pre_oid and ev.obj.oid in base.heap:
+                    case.delta = [d for d in case.delta if not (d[0] == "list" and d[1] == ev.obj.oid)]
+                    case.delta.append(("list.rewrite", ev.obj.oid, ()))
     for case in cases:
         if case.sig[0] != "next":
             exits.append(case)
